@@ -1,10 +1,34 @@
 //! hx_c19: exact scalar indices answer filters like a full scan (C19).
-mod probe;
+//!   unit arm  - the real `apply_scalar_indices` on generated expressions vs the model's translator
+//!   e2e arm   - Scanner with use_scalar_index(true) vs (false) over typed tables, BTree / Bitmap / LabelList
+//!               indices, histories (append, delete, update, compact+remap, optimize_indices, re-create) and
+//!               predicate trees; the same cases are replayed through the model's whole indexed scan
+mod ast;
+mod e2e;
+mod unit;
+
+use hxlib::util::{Args, Rng, Sink};
+use lance_index::IndexType;
+
+fn c19(args: &Args) -> i32 {
+    let mut sink = Sink::new("C19", &args.out);
+    let mut rng = Rng::new(args.seed);
+    std::panic::set_hook(Box::new(|_| {}));
+    unit::run(args, &mut sink, &mut rng);
+    let rt = tokio::runtime::Builder::new_multi_thread().worker_threads(4).enable_all().build().unwrap();
+    let st = rt.block_on(e2e::run(args, &mut sink, &mut rng, &[IndexType::BTree, IndexType::Bitmap, IndexType::BTree], 3));
+    sink.add(st.scan);
+    sink.add(st.class);
+    sink.add(st.translate);
+    sink.notes.push("unit: random datafusion expressions x random parser configurations; e2e: random typed tables x index kinds x histories x predicate trees (corpus first: the F1 / range_bounds_swapped inputs)".into());
+    sink.finish();
+    0
+}
 
 fn main() {
-    let (sub, args) = hxlib::util::Args::parse();
+    let (sub, args) = Args::parse();
     let code = match sub.as_str() {
-        "probe" => probe::run(&args),
+        "c19" => c19(&args),
         _ => {
             eprintln!("unknown subcommand {sub}");
             2
